@@ -430,4 +430,31 @@ theorem constants_as_published :
     Gen.headerKeyDerivation = (32, "header", false) ∧ Gen.payloadKeyDerivation = (32, "payload", true) ∧
     Gen.hkdfHash = "sha256" ∧ Gen.hmacHash = "sha256" := by decide
 
+/-- **The read-size sequence of the source is irrelevant, for every process function and every
+    terminal** (failing sources included): replacing the caps of a reader script by ANY other list —
+    other chunk sizes, any number of zero-length `(0, nil)` reads anywhere, in runs of any length —
+    leaves the whole result of the segment loop (calls, bytes written, close status) unchanged.
+    (Both sides equal `runSegs fn (confirmed r) 0 (finOf r)` by `processSegments_spec`, and neither
+    `confirmed` nor `finOf` looks at the caps.) -/
+theorem processSegments_read_sizes_irrelevant (segSize maxSeg : Nat) (hs : 0 < segSize) (fn : ProcFn)
+    (r : Reader) (caps' : List Nat) :
+    processSegments segSize maxSeg fn { r with caps := caps' } = processSegments segSize maxSeg fn r := by
+  rw [processSegments_spec segSize maxSeg fn hs, processSegments_spec segSize maxSeg fn hs r]
+  rfl
+
+/-- The instance behind seeded change C01-r6m2 (a "no progress" guard after 100 empty reads): a run
+    of `k` consecutive zero-length reads inserted before the `pos`-th read of any script — `k` = 100,
+    5000, anything — does not change what the segment loop does. -/
+theorem processSegments_zero_read_runs_irrelevant (segSize maxSeg : Nat) (hs : 0 < segSize) (fn : ProcFn)
+    (r : Reader) (pos k : Nat) :
+    processSegments segSize maxSeg fn
+        { r with caps := r.caps.take pos ++ List.replicate k 0 ++ r.caps.drop pos }
+      = processSegments segSize maxSeg fn r :=
+  processSegments_read_sizes_irrelevant segSize maxSeg hs fn r _
+
+/-- The instance is not vacuous: 100 zero-length reads between the two reads of a script. -/
+example : ({ (⟨[], [1, 2, 3], [2, 1], false, .eof⟩ : Reader) with
+      caps := ([2, 1] : List Nat).take 1 ++ List.replicate 100 0 ++ ([2, 1] : List Nat).drop 1 }).caps.length = 102 := by
+  decide
+
 end Kit.Enc.C01
